@@ -8,7 +8,7 @@
    not parse); [codec_hypotheses_satisfiable] shows they can be met. *)
 From Coq Require Import List NArith Arith Bool Lia.
 From AHK Require Import Lib.Res Lib.ByteStr Model.Persist Proofs.Persist Proofs.PersistEx
-  Model.PersistRec Proofs.PersistRec.
+  Model.PersistRec Proofs.PersistRec Model.PersistJson Proofs.PersistJson Proofs.PersistJsonFs.
 Import ListNotations.
 
 (* write-temp-then-rename (temp file in the same directory, fsync, close, os.replace):
@@ -227,6 +227,65 @@ Example c20_pairing_nonvacuous :
   Forall (fun ad => wf_pdata (snd ad)) ex_pairings /\ length ex_pairings = 3.
 Proof. exact (conj ex_pairings_wf eq_refl). Qed.
 
+(* ------------------------------------------------------------------ concrete JSON codec
+   The two codec hypotheses PROVED for a Gallina model of the JSON that is written (lexical level:
+   null / booleans / number tokens / string tokens / arrays / objects; [jprint false] = orjson's
+   compact output, [jprint true] = OPT_INDENT_2) and a white-space tolerant recursive-descent
+   parser; hence the crash theorems below carry no hypothesis about print/parse at all. *)
+Theorem json_parse_print :
+  forall ind v, wfj v = true -> jparse (jprint ind v) = Some v.
+Proof. exact jparse_jprint. Qed.
+
+Theorem json_prefix_none :
+  forall ind v p, wfj v = true -> is_container v = true -> strict_prefix p (jprint ind v) -> jparse p = None.
+Proof. exact jparse_prefix_none. Qed.
+
+Theorem save_crash_safe_json :
+  forall ind st f t h cs j D D' n st',
+    jgood D -> jgood D' ->
+    t <> f -> quiescent st f j -> content st j = jprint ind D -> concat cs = jprint ind D' ->
+    crash_view (crash_after n (save_atomic h t f cs) st) st' ->
+    load json jparse st' f = Loaded D \/ load json jparse st' f = Loaded D'.
+Proof. exact save_crash_safe_json_l. Qed.
+
+Theorem save_inplace_loses_data_json :
+  forall ind st f h cs j D' st',
+    jgood D' -> names st f = Some j -> concat cs = jprint ind D' ->
+    crash_view (crash_after 1 (save_inplace h f cs) st) st' ->
+    load json jparse st' f = Broken.
+Proof. exact save_inplace_loses_data_json_l. Qed.
+
+Theorem cache_prefix_safe_json :
+  forall ind,
+    (forall c p, wfj c = true -> strict_prefix p (jprint ind (jwrap c)) ->
+                 cache_load_bytes json jparse json (JO []) jget_pairings (Some p) = Ok (JO [])) /\
+    (forall bs, jparse bs = None -> cache_load_bytes json jparse json (JO []) jget_pairings (Some bs) = Ok (JO [])) /\
+    cache_load_bytes json jparse json (JO []) jget_pairings None = Ok (JO []).
+Proof. exact cache_prefix_safe_json_l. Qed.
+
+Theorem cache_save_crash_total_json :
+  forall ind st f h cs j c c' n st',
+    wfj c = true -> wfj c' = true ->
+    quiescent st f j -> content st j = jprint ind (jwrap c) -> concat cs = jprint ind (jwrap c') ->
+    crash_view (crash_after n (save_inplace h f cs) st) st' ->
+    cache_load json jparse json (JO []) jget_pairings st' f = Ok c \/
+    cache_load json jparse json (JO []) jget_pairings st' f = Ok c' \/
+    cache_load json jparse json (JO []) jget_pairings st' f = Ok (JO []).
+Proof. exact cache_save_crash_total_json_l. Qed.
+
+(* non-vacuity: nested objects/arrays, escaped quote in a string, float-like number token, literals,
+   empty containers; compact bytes spelled out; every one of the 148 strict prefixes of the indented
+   text fails to parse *)
+Example c20_json_nonvacuous :
+  (jgood ex_doc /\ jgood (jwrap ex_doc)) /\
+  jparse (jprint false ex_doc) = Some ex_doc /\ jparse (jprint true ex_doc) = Some ex_doc /\
+  forallb (fun k => match jparse (firstn k (jprint true ex_doc)) with None => true | Some _ => false end)
+          (seq 0 148) = true.
+Proof.
+  exact (conj ex_doc_good (conj (proj1 (proj2 ex_doc_prints))
+        (conj (proj1 (proj2 (proj2 ex_doc_prints))) (proj2 (proj2 (proj2 (proj2 ex_doc_prints))))))).
+Qed.
+
 Print Assumptions save_crash_safe.
 Print Assumptions save_crash_safe_plain.
 Print Assumptions save_crash_safe_fresh.
@@ -246,3 +305,9 @@ Print Assumptions broadcast_key_roundtrip.
 Print Assumptions pairing_roundtrip.
 Print Assumptions pairing_legacy_connection.
 Print Assumptions cache_map_last_write_wins.
+Print Assumptions json_parse_print.
+Print Assumptions json_prefix_none.
+Print Assumptions save_crash_safe_json.
+Print Assumptions save_inplace_loses_data_json.
+Print Assumptions cache_prefix_safe_json.
+Print Assumptions cache_save_crash_total_json.
